@@ -262,7 +262,13 @@ def run_twin(case, compare_sections=('params', 'rg', 'flags', 'grads'), probe_fo
             bump('oracle_checks_after_fault')
             if state_op_seen:
                 nontrivial = True
-        d = W.diff(pr, ps)
+        if isinstance(pr.get('out_eval'), dict) and '__raised' in pr['out_eval']:
+            # the reference itself cannot complete the probe's forward pass: not a legal history for the probe
+            bump('probe_forward_raised_on_reference_probe_skipped')
+            d = None
+            double_export = False
+        else:
+            d = W.diff(pr, ps)
         if d:
             path, a, b = d
             a_s, b_s = str(a)[:160], str(b)[:160]
@@ -278,7 +284,7 @@ def run_twin(case, compare_sections=('params', 'rg', 'flags', 'grads'), probe_fo
                      'state': {k2: W.tdigest(v2) for k2, v2 in e.state_dict().items()}}
                 e.eval()
                 with torch.no_grad():
-                    v['out'] = W.guarded(lambda: W.tensor_list(e(xp)))
+                    v['out'] = W.guarded(lambda: W.tensor_list(W.call_model(e, xp)))
                 return v
             S.model.eval()
             e1 = W.guarded(export_view)
